@@ -111,8 +111,10 @@ def oracle_groups(events):
     # A cursor position report is an answer from the terminal, not a command: it
     # neither ends a run nor excuses it ("a run of consecutive character
     # insertions" stays one run whatever the terminal says in between).
+    # A change from outside a dispatch (the asynchronous completer inserting the common
+    # prefix) is not a command either: it neither ends nor excuses a run.
     def is_report(e):
-        return e["kind"] == "cpr" or (e["kind"] == "key" and e["role"] == 7)
+        return e["kind"] in ("cpr", "async") or (e["kind"] == "key" and e["role"] == 7)
     keyed = [(p, e) for p, e in enumerate(events) if e["kind"] == "key" and not is_report(e)]
     n = len(keyed)
     i = 0
@@ -128,7 +130,9 @@ def oracle_groups(events):
         pos_j = keyed[j][0]
         pre, post = e["pre"], keyed[j][1]["post"]
         k = pos_j + 1
-        while (k < len(events) and (is_report(events[k]) or (events[k]["kind"] == "key" and not events[k]["undos"]
+        def outside_edit(e):    # a change from outside AFTER the run that altered the text: the next undo answers IT
+            return e["kind"] == "async" and e["post"][0] != e["pre"][0]
+        while (k < len(events) and ((is_report(events[k]) and not outside_edit(events[k])) or (events[k]["kind"] == "key" and not events[k]["undos"]
                and events[k]["post"][0] == events[k]["pre"][0] and events[k]["role"] not in GROUP_ROLES))):
             k += 1
         clean = all(events[q]["kind"] == "key" or is_report(events[q]) for q in range(pos_i, pos_j + 1))
@@ -257,7 +261,7 @@ EMACS_TOKENS = {
     "c-space": _tok("Keys.ControlAt"), "c-g": _tok("Keys.ControlG"), "c-q": _tok("Keys.ControlQ"), "c-z": _tok(("Keys.ControlZ", "\x1a")),
     "paste": _tok(("Keys.BracketedPaste", "p1\r\np2")), "M-<": _tok("Keys.Escape", "<"), "M->": _tok("Keys.Escape", ">"),
     "undo": _tok(("Keys.ControlUnderscore", "\x1f")), "undo2": _tok("Keys.ControlX", "Keys.ControlU"),
-    "c-d": _tok("Keys.ControlD"),
+    "c-d": _tok("Keys.ControlD"), "c-b": _tok("Keys.ControlB"), "c-f": _tok("Keys.ControlF"),
     # a cursor position report from the terminal; alone, and in the middle of a two-key sequence
     "cpr": _tok(("Keys.CPRResponse", "\x1b[5;1R")),
     "M-b/cpr": _tok("Keys.Escape", ("Keys.CPRResponse", "\x1b[7;3R"), "b"),
@@ -376,7 +380,8 @@ class Sess:
             if arg >= 1000000:
                 arg = 1
             rec = {"kind": "key", "h": idx, "row": row, "name": name, "keys": keys, "binding_id": id(handler), "arg": arg,
-                   "role": row[2], "saves": 0, "undos": [], "pre": self.state(), "binding": handler, "nav": False}
+                   "role": row[2], "saves": 0, "undos": [], "pre": self.state(), "binding": handler, "nav": False,
+                   "data": key_sequence[-1].data if key_sequence else ""}
             self.cur = rec
             try:
                 o_call(handler, key_sequence)
@@ -520,14 +525,15 @@ async def run_key_case(spec):
         exhausted = False
         if ok and spec.get("tail", True):
             # repeated undo through the real undo key
-            pre_tokens = ["esc", "esc"] if spec["mode"] == "vi" else ["c-g"]
+            pre_tokens = [] if spec.get("edit") else ["esc", "esc"] if spec["mode"] == "vi" else ["c-g"]
             for t in pre_tokens:
                 ok = ok and s.feed(toks[t])
-            undo_tok = toks["u"] if spec["mode"] == "vi" else toks["undo"]
-            for _ in range(len(s.buf._undo_stack) + 2):
+            # every undo key: Vi u; emacs C-_ and C-x C-u alternately
+            undo_toks = [toks["u"]] if spec["mode"] == "vi" else [toks["undo"], toks["undo2"]]
+            for q in range(len(s.buf._undo_stack) + 2):
                 if not ok:
                     break
-                ok = s.feed(undo_tok)
+                ok = s.feed(undo_toks[q % len(undo_toks)])
             exhausted = ok and not s.buf._undo_stack
         res = {"init": init, "first": first, "events": s.events, "problems": s.problems, "ended": s.ended,
                "tail_ran": bool(ok and spec.get("tail", True)), "stack_left": list(s.buf._undo_stack),
@@ -692,17 +698,100 @@ def describe_atom(a):
     return "%s %r -> %r" % (a["kind"], a["pre"], a["post"])
 
 
+def live_rows_sx(rows0):
+    return [list(r[0]) for r in rows0]
+
+
+def table_consistent(rows0):
+    """Is the binding table the two model evaluators use the one of the tree under test?
+    coq/Gen/C07_Bindings.v, the compiled .vo files and build/c07_model are shared by every
+    ./check C07 on this machine; a concurrent run with another VERIF_REPO (a seeded tree
+    next to /repo HEAD) regenerates them with ITS table.  The extracted model answers the
+    table query (5) with its rows; the Gen file carries the digest of the rows."""
+    try:
+        t = run_model("c07", [[5]])[0]
+    except Exception:  # noqa
+        return False
+    return t == live_rows_sx(rows0) and gen_sha() == gen_t_c07.rows_digest(rows0)
+
+
+def rebuild_for_this_tree():
+    return build_model("c07", "Extract/ExC07.v", "run_C07", tables=TABLES)
+
+
+def guarded_correspondence(chk, cases, impl_results, rows0, tagger, describe, oracle_failed):
+    """common.correspondence, with the extracted model re-run (after a rebuild from the tree
+    under test) when the shared binding table was swapped under it by a concurrent run."""
+    stable = False
+    model_results = []
+    for attempt in range(3):
+        before = table_consistent(rows0)
+        model_results = run_model("c07", cases)
+        if before and table_consistent(rows0):
+            stable = True
+            break
+        chk.note("the shared binding table changed while the extracted model ran (concurrent ./check C07 on another tree?); rebuilding, attempt %d" % (attempt + 1))
+        rebuild_for_this_tree()
+    if not stable:
+        chk.violation("tie", "coq/Gen/C07_Bindings.v / build/c07_model kept changing under this run (another ./check C07 with a different VERIF_REPO is running): "
+                      "the model could not be evaluated over the table of the tree under test", {"kind": "table-race", "evaluator": "extracted"}, {}, no_input=True)
+    nbad = 0
+    for i, (c, a, m) in enumerate(zip(cases, impl_results, model_results)):
+        a = sx_norm(a)
+        if a != m:
+            nbad += 1
+            if nbad > 50:
+                continue
+            tags = dict(tagger(c, a, m))
+            tags.setdefault("kind", "correspondence")
+            has_input = bool(oracle_failed(i))
+            chk.violation("correspondence", "model c07 and implementation differ: " + describe(c, a, m), tags,
+                          {"case": sx_norm(c), "impl": a, "model": m, "model_fn": "c07"}, no_input=not has_input)
+    chk.coverage["traces_validated_against_impl"] += len(cases) - nbad
+    return model_results, nbad
+
+
+def guarded_vm_crosscheck(chk, pairs, rows0):
+    """vm_crosscheck with a sentinel (table query, live rows) at the head of every generated
+    file: when the sentinel itself mismatches, Model/C07_Table.vo was compiled over another
+    tree's table (concurrent run) - rebuild and evaluate again instead of blaming extraction.
+    -> (indices into `pairs` that differ, logs, ok)"""
+    sentinel = ([5], live_rows_sx(rows0))
+    bad, logs = [], []
+    for attempt in range(3):
+        aug, orig = [], []
+        for k, pr_ in enumerate(pairs):
+            if len(aug) % 400 == 0:
+                aug.append(sentinel)
+                orig.append(None)
+            aug.append(pr_)
+            orig.append(k)
+        bad, logs = vm_crosscheck(PROP, "run_C07", "Model.C07_Table", aug)
+        raced = [b for b in bad if isinstance(b, int) and orig[b] is None]
+        if not raced and table_consistent(rows0):
+            return [orig[b] if isinstance(b, int) else b for b in bad], logs, True
+        chk.note("the in-Coq evaluation saw another binding table than the tree under test (concurrent ./check C07 on another tree?); rebuilding, attempt %d" % (attempt + 1))
+        rebuild_for_this_tree()
+    return [orig[b] if isinstance(b, int) else b for b in bad if not (isinstance(b, int) and orig[b] is None)], logs, False
+
+
 def main(tier):
     chk = Check(PROP, tier)
-    pr = chk.proofs("Props/C07.v", tables=TABLES)
-    okm, logm = build_model("c07", "Extract/ExC07.v", "run_C07", tables=TABLES)
+    rows0 = gen_t_c07.default_rows()     # the table of the tree under test, computed in this process
+    pr, okm, logm = None, False, ""
+    for attempt in range(3):
+        pr = chk.proofs("Props/C07.v", tables=TABLES)
+        okm, logm = build_model("c07", "Extract/ExC07.v", "run_C07", tables=TABLES)
+        if not okm or table_consistent(rows0):
+            break
+        # proofs / model were (re)built while another run swapped the shared table: do it again
+        chk.note("binding table under coq/Gen is not the one of the tree under test after the build (concurrent ./check C07 on another tree?); rebuilding, attempt %d" % (attempt + 1))
     if not okm:
         chk.violation("tie", "model does not build: " + logm[-400:], {"kind": "model-build"}, {"log": logm[-3000:]}, no_input=True)
         proof_gate(chk, pr)
         return chk.finish()
 
     # ---- the table: what this process sees must be what the proofs were checked over
-    rows0 = gen_t_c07.default_rows()
     if gen_t_c07.rows_digest(rows0) != gen_sha():
         chk.violation("tie", "binding table seen by the harness differs from coq/Gen/C07_Bindings.v",
                       {"kind": "table-digest"}, {"harness": gen_t_c07.rows_digest(rows0), "gen": gen_sha()}, no_input=True)
@@ -841,6 +930,11 @@ def main(tier):
             chk.sample({"kind": "keys", "mode": spec["mode"], "text": spec["text"], "tokens": spec["tokens"][:12],
                         "dispatched": [e.get("name", "redo()") for e in res["events"][:8]], "final": list(res["final"])}, limit=8)
 
+    # ---- kind 3: several buffers; kind 4: editing sessions over computed texts (harness/c07_r6.py)
+    import c07_r6
+    mstats = c07_r6.run_multi(chk, cases, impl_results, oracle_bad, rows0, spec_of)
+    estats = c07_r6.run_edit(chk, cases, impl_results, oracle_bad, rows0, spec_of, report)
+
     # the table's own verdict on the grouping bindings, with the cause seen on the live objects
     if not tq[2]:
         from prompt_toolkit import PromptSession  # noqa
@@ -853,11 +947,13 @@ def main(tier):
                 {"row": idx, "keys": row[1], "handler": row[2], "class": row[0][0],
                  "how": "gen/gen_t_c07.py probes binding.save_before with is_repeat False/True"}, no_input=False)
 
-    dist.update({"key_sessions": kstats["sessions"], "key": kstats})
+    dist.update({"key_sessions": kstats["sessions"], "key": kstats, "multi_buffer_sessions": mstats["sessions"], "multi": mstats,
+                 "edit_sessions": estats["sessions"], "edit": estats})
     chk.coverage["input_distribution"] = dist
 
     def tagger(c, a, m):
-        kind = "buffer" if c[0] == 0 else "keys"
+        kind = {0: "buffer", 1: "keys", 3: "multi", 4: "edit"}.get(c[0], "?")
+        evl = c[4] if c[0] == 3 else c[3]
         step = None
         for j, (x, y) in enumerate(zip(a, m if isinstance(m, list) else [])):
             if x != y:
@@ -865,9 +961,13 @@ def main(tier):
                 break
         tags = {"level": kind}
         if step is not None:
-            op = c[3][step]
+            op = evl[step]
             if kind == "buffer":
                 tags["op"] = {1: "Cmd", 2: "Undo", 3: "Redo"}.get(op[0], "?")
+            elif kind == "multi":
+                tags["op"] = {1: "Key", 2: "Redo", 3: "UndoKey", 4: "Cpr", 6: "Focus", 7: "Async"}.get(op[0], "?")
+            elif kind == "edit":
+                tags["op"] = {1: "Edit", 2: "Redo", 3: "UndoKey", 4: "Cpr"}.get(op[0], "?")
             else:
                 tags["op"] = "Key" if op[0] == 1 else "Redo"
                 if op[0] == 1 and 0 <= op[1] < len(rows0) and a[step][0] != (m[step][0] if isinstance(m[step], list) else None):
@@ -878,15 +978,18 @@ def main(tier):
     def describe(c, a, m):
         for j, (x, y) in enumerate(zip(a, m if isinstance(m, list) else [])):
             if x != y:
-                return "%s level, step %d op %r: impl %r model %r" % ("buffer" if c[0] == 0 else "key", j, c[3][j], x, y)
+                return "%s level, step %d op %r: impl %r model %r" % (
+                    {0: "buffer", 1: "key", 3: "multi-buffer", 4: "edit"}.get(c[0], "?"), j, (c[4] if c[0] == 3 else c[3])[j], x, y)
         return "impl %r model %r" % (a[:1], m[:1] if isinstance(m, list) else m)
 
-    model_results, nbad = correspondence(chk, "c07", cases, impl_results, tagger, describe=describe,
-                                         oracle_failed=lambda i: i in oracle_bad)
+    model_results, nbad = guarded_correspondence(chk, cases, impl_results, rows0, tagger, describe, lambda i: i in oracle_bad)
 
     # malformed stream: the model must answer bad_case, never something an implementation run could equal
     malformed = [[0, S("a"), 5, []], [0, S("a"), 0, [[1, 1, S("a"), 2]]], [1, S("a"), 0, [[1, 9999, 0, S("a"), 0]]],
-                 [1, S("a"), 0, [[1, -1, 0, S("a"), 0]]], [1, S("a"), 0, [[1, 0, -1, S("a"), 0]]], [3], [0, 1, 2, 3], [1, S("a"), 0, [[7]]]]
+                 [1, S("a"), 0, [[1, -1, 0, S("a"), 0]]], [1, S("a"), 0, [[1, 0, -1, S("a"), 0]]], [3], [0, 1, 2, 3], [1, S("a"), 0, [[7]]],
+                 [3, [[S("a"), 2]], 0, [], []], [3, [[S("a"), 0]], 1, [], []], [3, [[S("a"), 0]], 0, [], [[6, 1]]],
+                 [3, [[S("a"), 0]], 0, [[3, 0, 0]], []], [3, [[S("a"), 0]], 0, [], [[1, 0, 0, [[0, 1, S("b"), 0]], 0]]],
+                 [4, S("a"), 0, [[1, 0, [19, S("x"), 1]]]], [4, S("a"), 0, [[1, 99, [2, 1]]]], [4, S("a"), 3, []]]
     mres = run_model("c07", malformed)
     for c, r in zip(malformed, mres):
         if r != [-999]:
@@ -896,13 +999,16 @@ def main(tier):
     k = 900 if chk.tier == "thorough" else 250
     idx = sorted(chk.rng.sample(range(len(cases)), min(k, len(cases))))
     pairs = [(cases[i], impl_results[i]) for i in idx]
-    bad, logs = vm_crosscheck(PROP, "run_C07", "Model.C07_Table", pairs)
+    bad, logs, vm_stable = guarded_vm_crosscheck(chk, pairs, rows0)
     chk.coverage["vm_compute_crosschecked"] = len(pairs)
+    if not vm_stable:
+        chk.violation("tie", "Model/C07_Table.vo kept being rebuilt over another binding table under this run (another ./check C07 with a different VERIF_REPO is running): "
+                      "the in-Coq evaluation could not be done over the table of the tree under test", {"kind": "table-race", "evaluator": "vm_compute"}, {}, no_input=True)
     model_bad = set(i for i, (a, m) in enumerate(zip(impl_results, model_results)) if sx_norm(a) != m)
     vm_bad = set(idx[b] for b in bad if isinstance(b, int))
     if any(not isinstance(b, int) for b in bad):
         chk.violation("tie", "vm_compute cross-check failed to run: " + (logs[0] if logs else ""), {"kind": "vm"}, {"log": logs}, no_input=True)
-    if vm_bad != (model_bad & set(idx)):
+    if vm_stable and vm_bad != (model_bad & set(idx)):
         d = sorted(vm_bad ^ (model_bad & set(idx)))[:5]
         chk.violation("tie", "extracted model and in-Coq evaluation disagree on cases %r" % d, {"kind": "extraction"},
                       {"cases": [cases[i] for i in d]}, no_input=True)
@@ -916,12 +1022,21 @@ def main(tier):
                             "(binding number in the regenerated table, undo() calls, resulting text/cursor, whether save_to_undo_stack ran) and replayed by the "
                             "model, which takes the snapshot decision itself (undo keys: whole effect computed from the typed count; reports and new prompts as their own events); "
                             "followed by repeated presses of the real undo key, which must empty the stack and end on the prompt's start text. "
+                            "kind 3 (harness/c07_r6.py, Model/C07_Multi.v): sessions over SEVERAL buffers with one KeyProcessor - a PromptSession with history, completer and its "
+                            "search buffer (c-r/c-s, Vi / ?: focus moved by dispatches, the target buffer edited while the search buffer is focused, the search buffer reset), "
+                            "and an Application with three Buffers and a user binding that moves the focus - plus Layout.focus / Buffer.redo / edits by application code between "
+                            "dispatches and the asynchronous completer's insertions (every state change seen between two dispatches is replayed as a change from outside); "
+                            "focus, snapshot decision and every buffer's text, cursor and both stacks compared after every event; the property text is judged per buffer. "
+                            "kind 4 (Model/C07_Edit.v): editing sessions (typed characters, backspace, delete, cursor keys, undo keys, redo, reports) where the model is told "
+                            "only which binding was dispatched with which data and count and COMPUTES every text with C01's edit model. "
                             "non-trivial = the case contains an undo that changed the buffer; distinct by hash of the whole case"
                             % ("(all)" if chk.tier == "thorough" else "(10% sample)"))
     chk.assumptions += [
         "a command's effect on the buffer is abstracted to the (text, cursor) it leaves: everything a handler does besides calling undo()/redo() is an arbitrary payload in the theorems",
-        "one buffer: focus stays on the default buffer (sessions end when a key moves focus, a handler raises, or the application exits); is_repeat across buffers is outside",
-        "text changes made outside a key dispatch (async completion, application code calling Buffer methods) are outside the key-level theorems; the buffer-level theorems cover them as Cmd false",
+        "several buffers: Model/C07_Multi.v tracks the buffers the harness names (default + search buffer of a PromptSession; the three Buffers of the test application); a session ends when the focus goes to any other buffer, a handler raises or the application exits",
+        "text changes outside a key dispatch are replayed as the model's MAsync event from the state difference the harness sees between two dispatches (what changed, not who changed it)",
+        "observation O4 (is_repeat is per key processor): application code that focuses another buffer between two keystrokes of one if_no_repeat binding leaves the second keystroke un-snapshotted; the model reproduces it (C07_programmatic_focus_refuted), the per-buffer oracle does not judge grouping / reaches-start for such a buffer (counted in undisciplined_buffers)",
+        "kind 4 trusts C01's edit model (Model/BufferEdit.v, tied to the real Buffer by C01's own check) for what self-insert / backward-delete-char / delete-char / backward-char / forward-char do; here it is tied again through real key dispatches",
         "which handlers call Buffer.undo/redo is read from their code objects' co_names (gen/gen_t_c07.py) and confirmed per dispatch by the wrapped Buffer.undo",
         "Vi navigation mode when _fix_vi_cursor_position runs after an undo key is derived by the model from the binding (Vi u is registered under vi_navigation_mode and leaves the mode alone; emacs undo keys only exist in emacs mode) and compared per dispatch with the observed vi_navigation_mode(); the filter itself (vi_state.input_mode, temporary navigation mode) is not modelled",
         "the count passed to an undo key (KeyPressEvent.arg) is read from KeyProcessor.arg just before the dispatch; how the key processor accumulates it is C04/C05's model, not this one",
@@ -952,6 +1067,9 @@ def _live_bindings_once():
 def replay(data):
     rep = data["replay"]
     rc = 0
+    if "spec" in rep and "flavour" in rep["spec"]:
+        import c07_r6
+        return c07_r6.replay_multi(rep["spec"])
     if "spec" in rep:
         spec = rep["spec"]
         res = run_key_case_sync(spec)
